@@ -606,6 +606,9 @@ class ProgramGen(object):
             if HOME_SELF[self.home]:
                 srcs.append(('self', 'int', HOME_SELF[self.home]))
             srcs.append(('::top()', 'int', 'DOG'))
+            for a in self.set_vars():
+                for b in self.set_vars(self.lookup(a)[1]):      # set algebra on two sets of one class
+                    srcs.append(('%s %s %s' % (a, r.choice(['|', '&', '-', '+', '^']), b), 'ins', self.lookup(a)[1]))
             src, kind, kl = r.choice(srcs)
             name = self.target_var(kind, kl, 'h' if kind == 'int' else 'hs')
             return [['s', '%s = %s' % (name, src), 'assign']]
